@@ -220,7 +220,7 @@ func init() {
 		ID:        "C17",
 		Technique: "runtime monitor: candidate-set oracle computed from the program spec, applied to the list written by the real completion path (in process through the verif setters, and by a real driver process leaving through os.Exit); acceptance replay of every offered option/command through the real parser",
 		Rule: "case = random tree (aliases, suggested/valid values, dynamic value and argument completion functions, wrappers, help) x COMP_LINE = program word + AST-rendered earlier words (options with values, command tokens; closed items) + last word from {empty, `-`, `--`, prefix of a key with one or two dashes, non-matching prefix, `--key=partial`, command prefix, other word} x bash/zsh; extra whitespace between words; " +
-			"distinct = (level, last-word class, target, item shapes); non-trivial = at least one candidate is expected. Domain (DESIGN N2): no require-order programs, earlier words end in a closed item and are written with `--` when the program's mode is not Normal.",
+			"distinct = (level, last-word class, target, item shapes); non-trivial = at least one candidate is expected. Domain (DESIGN N2): no require-order programs, earlier words end in a closed item and are written with `--` when the program's mode is not Normal." + genDims,
 		Assumptions: []string{"COMP_LINE words contain no whitespace (the library splits COMP_LINE on whitespace)"},
 		Cases:       func(tier string) int { return tierN(tier, 12000, 1000000) },
 		Run: func(seed uint64, idx int, tier string) *fw.Result {
@@ -331,6 +331,18 @@ func init() {
 				for i, c := range got {
 					g2[i] = strings.TrimRight(c, " ")
 				}
+				if lastClass == "value" || lastClass == "value-nosuggestions" {
+					// the statement fixes the values, not whether a shell gets them bare or as `--name=value`
+					pre := last[:strings.Index(last, "=")+1]
+					for i := range g2 {
+						g2[i] = strings.TrimPrefix(g2[i], pre)
+					}
+					for i := range e.list {
+						e.list[i] = strings.TrimPrefix(e.list[i], pre)
+					}
+					sort.Strings(g2)
+					sort.Strings(e.list)
+				}
 				sort.Strings(g2)
 				if !eqStrs(g2, e.list) && !(len(g2) == 0 && len(e.list) == 0) {
 					return fail(fmt.Sprintf("candidates %q, expected %q", g2, e.list))
@@ -364,7 +376,7 @@ func init() {
 					}
 					oc := Run(p, argv, false)
 					res.Execs++
-					if oc.Panic != "" || (oc.HasErr && (strings.Contains(oc.Err, "Unknown option") || strings.Contains(oc.Err, "Ambiguous"))) || (!oc.HasErr && !oc.Opts[exp.Node+"|"+name].Called && !node.IsHelp) {
+					if oc.Panic != "" || (oc.HasErr && (strings.Contains(strings.ToLower(oc.Err), "unknown") || strings.Contains(strings.ToLower(oc.Err), "ambiguous"))) || (!oc.HasErr && !oc.Opts[exp.Node+"|"+name].Called && !node.IsHelp) {
 						doc.Got = oc
 						return fail(fmt.Sprintf("offered option %q is not accepted by the parser at that position (argv %q): %s%s", c, argv, oc.Err, oc.Panic))
 					}
